@@ -36,6 +36,8 @@ def site_establishes_invariant(prog, root):
 
 def run(rep):
     prog = rep.prog
+    from .c06 import id_encoding
+    id_encoding(rep)
     rep.rule("nonce-invariant", "every Nonce value built anywhere differs from CLOSE_SCALAR: single guarded construction site; Nonce::new returns only values that passed that guard; decoding goes through it")
     rep.rule("layouts", "State and CloseState messages agree on all slots but one, which holds the nonce resp. the constant close tag")
     rep.rule("channel-id", "ChannelId::new is a digest over all five inputs (public key: all five element groups by whole-array loops), with no non-deterministic callee")
